@@ -4,6 +4,22 @@ compiles and breaks exactly one frozen rule instance; `expect` is a substring of
 CG = "crates/qbice/src/engine/computation_graph/"
 ST = "crates/storage/src/"
 
+import subprocess as _sp
+
+
+def _slice(rev, path, start, end):
+    t = _sp.check_output(["git", "-C", "/repo", "show", "%s:%s" % (rev, path)], text=True)
+    a = t.index(start)
+    return t[a:t.index(end, a)]
+
+
+# D6: the recursive cycle probe of the pinned tree (before fix 68fc23f) vs the repaired one
+_OLD_PROBE = _slice("e00951b", CG + "computing.rs", "    /// Checks whether the stack of computing queries contains a cycle\n    #[allow(clippy::needless_pass_by_value)]\n    fn check_cyclic_internal(",
+                    "    /// Checks whether the stack of computing queries contains a cycle\n    #[allow(clippy::needless_pass_by_value)]\n    pub(super) fn check_cyclic(").replace(
+    "computing: &QueryComputing,\n        target", "computing: &Arc<QueryComputing>,\n        target")
+_NEW_PROBE = _slice("68fc23f", CG + "computing.rs", "    /// Checks whether `target` is reachable from `root`",
+                    "    /// Checks whether the stack of computing queries contains a cycle\n    #[allow(clippy::needless_pass_by_value)]\n    pub(super) fn check_cyclic(")
+
 MUTANTS = [
     # ------------------------------------------------------------------ C01
     dict(id="C01.a-skip-mark-on-contention", prop="C01", file=CG + "dirty_worker.rs",
@@ -371,10 +387,17 @@ MUTANTS = [
          old="            computing.mark_scc();\n",
          new="            let _ = computing;\n",
          expect="C06.b/exit_scc/mark-then-error"),
-    dict(id="C06.b-visitor-stops-early", prop="C06", file=CG + "computing.rs",
-         old="            else {\n                return true;\n            };\n\n            found |= self.check_cyclic_internal(&state, target);",
-         new="            else {\n                return false;\n            };\n\n            found |= self.check_cyclic_internal(&state, target);",
-         expect="C06.b/check_cyclic_internal/marks-and-recurses"),
+    dict(id="C06.b-collector-stops-early", prop="C06", file=CG + "computing.rs",
+         old="                callees.push(*k);\n                true\n",
+         new="                callees.push(*k);\n                callees.len() < 64\n",
+         expect="C06.b/check_cyclic_internal/visits-all-marks-found"),
+    dict(id="C06.b-descend-under-bucket-lock", prop="C06", file=CG + "computing.rs",
+         old="                callees.push(*k);\n                true\n",
+         new="                if self.computation_graph.computing.try_get_query_computing(k).is_some() {\n                    callees.push(*k);\n                }\n                true\n",
+         expect="C06.b/check_cyclic_internal/each-computation-once-no-lock-while-descending"),
+    dict(id="C06.b-D6-recursive-probe-without-visited-set", prop="C06", file=CG + "computing.rs",
+         old=_NEW_PROBE, new=_OLD_PROBE,
+         expect="C06.b/check_cyclic_internal/each-computation-once-no-lock-while-descending"),
     dict(id="C06.c-resume-panic-inside-scc", prop="C06", file=CG + "slow_path.rs",
          old="        let value = if is_in_scc {",
          new="        let value = if is_in_scc && result.is_ok() {",
@@ -775,4 +798,45 @@ MUTANTS = [
          old="        if first {\n            // serialize the full value",
          new="        if !first {\n            // serialize the full value",
          expect="C15.c/encode/first-occurrence-decision"),
+    dict(id="C12.d-derive-enum-encodes-skipped-field", prop="C12", file="crates/serialize_derive/src/lib.rs",
+         old="                        field_names.iter().filter(|(_, skip)| !skip).map(",
+         new="                        field_names.iter().filter(|(_, _skip)| true).map(",
+         expect="C12.a/derive-fixtures/shape/test::EnumWithSkip"),
+    # ------------------------------------------------------------------ C09.f (D5)
+    dict(id="C09.f-D5-fold-heap-in-arbitrary-order", prop="C09", file=ST + "key_of_set_map/cache.rs",
+         old="""        let mut ordered = log.iter().collect::<Vec<_>>();
+        ordered.sort_unstable_by_key(|op| (op.epoch, op.sequence));
+
+        for op in ordered {
+            match &op.op {
+                Operation::Insert(v) => {
+                    removed.remove(v);
+                    added.insert(v.clone());
+                }
+                Operation::Remove(v) => {
+                    added.remove(v);
+                    removed.insert(v.clone());
+                }
+            }
+        }""",
+         new="""        for op in log.iter() {
+            let _ = op.sequence;
+            match &op.op {
+                Operation::Insert(v) => {
+                    if removed.remove(v).not() {
+                        added.insert(v.clone());
+                    }
+                }
+                Operation::Remove(v) => {
+                    if added.remove(v).not() {
+                        removed.insert(v.clone());
+                    }
+                }
+            }
+        }""",
+         expect="C09.f/order-sensitive-fold/ConcurrentLog::get_snapshot"),
+    dict(id="C09.f-sort-by-epoch-only", prop="C09", file=ST + "key_of_set_map/cache.rs",
+         old="        ordered.sort_unstable_by_key(|op| (op.epoch, op.sequence));",
+         new="        ordered.sort_unstable_by_key(|op| op.epoch);",
+         expect="C09.f/get_snapshot/replay-in-issue-order"),
 ]
